@@ -49,27 +49,58 @@ type c03Scenario struct {
 	Ops       []c03Op             `json:"ops"`
 }
 
-func genC03Matchers(t *rapid.T, label string) []ref.Matcher {
-	n := rapid.IntRange(1, 2).Draw(t, label+"N")
-	var ms []ref.Matcher
-	for i := 0; i < n; i++ {
-		// bias to equality on the small universe so that rules match often
-		if rapid.IntRange(0, 2).Draw(t, label+"kind") > 0 {
-			ms = append(ms, ref.Matcher{Op: "=", Name: rapid.SampledFrom(gen.UniNames).Draw(t, label+"n"), Value: rapid.SampledFrom(gen.UniValues).Draw(t, label+"v")})
-		} else {
+// genC03Matchers: matchers derived from a label set of the scenario (so that
+// they hit), or free matchers over the universe (regex, negation).
+func genC03Matchers(t *rapid.T, label string, from map[string]string) []ref.Matcher {
+	if rapid.IntRange(0, 3).Draw(t, label+"free") == 0 || len(from) == 0 {
+		n := rapid.IntRange(1, 2).Draw(t, label+"N")
+		var ms []ref.Matcher
+		for i := 0; i < n; i++ {
 			ms = append(ms, gen.UniMatcher().Draw(t, label+"m"))
 		}
+		return ms
+	}
+	var names []string
+	for _, n := range gen.UniNames {
+		if _, ok := from[n]; ok {
+			names = append(names, n)
+		}
+	}
+	n := rapid.SampledFrom(names).Draw(t, label+"n")
+	ms := []ref.Matcher{{Op: "=", Name: n, Value: from[n]}}
+	if rapid.IntRange(0, 4).Draw(t, label+"second") == 0 {
+		ms = append(ms, gen.UniMatcher().Draw(t, label+"m2"))
 	}
 	return ms
 }
 
 func genC03(t *rapid.T) c03Scenario {
 	var sc c03Scenario
+	nl := rapid.IntRange(3, 6).Draw(t, "nls")
+	seen := map[string]bool{}
+	for i := 0; i < nl; i++ {
+		ls := map[string]string{}
+		for _, n := range gen.UniNames {
+			// dense label sets over two values: equal-label collisions are frequent
+			if v := rapid.SampledFrom([]string{"x", "x", "y", "z", ""}).Draw(t, "lv"); v != "" {
+				ls[n] = v
+			}
+		}
+		if len(ls) == 0 {
+			ls = map[string]string{"a": "x"}
+		}
+		if k := ref.LabelKey(ls); !seen[k] {
+			seen[k] = true
+			sc.LabelSets = append(sc.LabelSets, ls)
+		}
+	}
 	nr := rapid.IntRange(1, 3).Draw(t, "nrules")
 	for i := 0; i < nr; i++ {
-		r := c03Rule{Source: genC03Matchers(t, "src"), Target: genC03Matchers(t, "tgt")}
+		src := sc.LabelSets[rapid.IntRange(0, len(sc.LabelSets)-1).Draw(t, "srcFrom")]
+		tgt := sc.LabelSets[rapid.IntRange(0, len(sc.LabelSets)-1).Draw(t, "tgtFrom")]
+		r := c03Rule{Source: genC03Matchers(t, "src", src), Target: genC03Matchers(t, "tgt", tgt)}
 		for _, n := range gen.UniNames {
-			if rapid.IntRange(0, 2).Draw(t, "eq") == 0 {
+			if rapid.IntRange(0, 3).Draw(t, "eq") == 0 {
 				r.Equal = append(r.Equal, n)
 			}
 		}
@@ -77,22 +108,6 @@ func genC03(t *rapid.T) c03Scenario {
 			r.Equal = append(r.Equal, "d") // label missing on both sides: counts as empty
 		}
 		sc.Rules = append(sc.Rules, r)
-	}
-	nl := rapid.IntRange(2, 6).Draw(t, "nls")
-	seen := map[string]bool{}
-	for len(sc.LabelSets) < nl {
-		ls := gen.UniLabelSet().Draw(t, "ls")
-		if len(ls) == 0 {
-			ls = map[string]string{"a": "x"}
-		}
-		k := ref.LabelKey(ls)
-		if seen[k] {
-			// small universe: accept fewer label sets instead of filtering
-			nl--
-			continue
-		}
-		seen[k] = true
-		sc.LabelSets = append(sc.LabelSets, ls)
 	}
 	sc.GCSec = rapid.SampledFrom([]int{60, 300, 1800}).Draw(t, "gc")
 	nops := rapid.IntRange(3, 30).Draw(t, "nops")
@@ -102,8 +117,14 @@ func genC03(t *rapid.T) c03Scenario {
 			op := c03Op{Kind: "put", LS: rapid.IntRange(0, len(sc.LabelSets)-1).Draw(t, "ls")}
 			op.EndOff = rapid.SampledFrom([]int{-30, 0, 20, 60, 120, 300, 600, 1200, 3600}).Draw(t, "end")
 			sc.Ops = append(sc.Ops, op)
+			if rapid.Bool().Draw(t, "q") {
+				sc.Ops = append(sc.Ops, c03Op{Kind: "query"})
+			}
 		case 5, 6, 7:
 			sc.Ops = append(sc.Ops, c03Op{Kind: "advance", Dt: rapid.SampledFrom([]int{1, 10, 30, 60, 90, 200, 400, 900, 1000, 2000}).Draw(t, "dt")})
+			if rapid.Bool().Draw(t, "q") {
+				sc.Ops = append(sc.Ops, c03Op{Kind: "query"})
+			}
 		default:
 			sc.Ops = append(sc.Ops, c03Op{Kind: "query"})
 		}
